@@ -64,7 +64,7 @@ PROPERTIES = {
     "C20": {
         "rule": "rapidcheck: bounding box per axis from 1 to 40 voxels, extent an exact multiple of the voxel size or not, six position "
                 "classes (origin, straddling, integer and real offsets, +-1e4 voxels), voxel size 1e-7..1e3; stored and query points from "
-                "{lo, hi, one ulp inside, voxel boundaries, uniform, clusters in one voxel} plus the 8 corners; both uspg_4d and uspg_3d. "
+                "{lo, hi, one ulp inside, voxel boundaries, uniform, clusters in one voxel} plus the 8 corners; both uspg_4d and uspg_3d; in 3/5 of the cases the SAME grid object is then re-dimensioned (update_dimensions) 1-3 times to a box that slid, grew or shrank by whole and fractional voxels (along z only, rigidly, or per corner) and the whole protocol is repeated on it, as the contact models re-use their grid every iteration. "
                 "Non-trivial = extent is an exact multiple of the voxel size AND a point lies on a max face; distinct = hash of the case.",
         "min_nontrivial": 500,
         "assumptions": ["reference voxel index is only compared when the point is farther than 1e-9 voxel from a voxel boundary",
